@@ -889,4 +889,20 @@ def rateOfBlk15 (b : Blk15 α ω) : Rate15 α :=
 
 end adf15
 
+/-! ## which conversion each returned field carries (parsers: ADF12/15/21/22; installer notation step: ADF11) -/
+
+def convs2x (k : Kind2x) : List (String × Conv) :=
+  [("e", .id), ("n", .perCm3), ("t", .id), ("sen", k.norm), ("st", k.norm), ("eref", .id), ("nref", .perCm3), ("tref", .id),
+   ("sref", k.norm)]
+
+def convs12 : List (String × Conv) :=
+  [("eb", .id), ("ti", .id), ("ni", .perCm3), ("z", .id), ("b", .id), ("qeb", .cm3), ("qti", .cm3), ("qni", .cm3), ("qz", .cm3),
+   ("qb", .cm3), ("ebref", .id), ("tiref", .id), ("niref", .perCm3), ("zref", .id), ("bref", .id), ("qref", .cm3)]
+
+/-- parse_adf11 returns the log10 values as written; `_notation_adf11_adas2cherab` converts -/
+def convs11parsed : List (String × Conv) := [("ne", .id), ("te", .id), ("rates", .id)]
+def convs11installed : List (String × Conv) := [("ne", convNe11), ("te", convTe11), ("rates", convRate11)]
+
+def convs15 : List (String × Conv) := [("ne", .perCm3), ("te", .id), ("rate", .cm3), ("wl", .angstrom)]
+
 end Cherab.Adf
